@@ -171,3 +171,11 @@ def parser_reset(O):
 def bits_once(O):
     from . import C01
     C01.bits_expansion(dri.WithRep(O, rep()))
+
+
+@obligation("C17/one-generator-per-run", profiles=("dev",),
+            desc="next / handle_io: rows, installed outputs and virtual signals all use the iterator's one `ctx` - the context "
+                 "whose generator random() draws from and resetRandom restarts - so a draw inside a declared signal belongs to "
+                 "the run's sequence")
+def one_generator(O):
+    dri.one_context(O, rep())
